@@ -221,6 +221,18 @@ func TestC09(t *testing.T) {
 							if !c.Guard("EncodeUnixFSData", func() { enc = data.EncodeUnixFSData(d) }) {
 								continue
 							}
+							// the Append form must append to what is already there, whatever the spare capacity
+							if k == 0 {
+								prefix := append(make([]byte, 0, 7+mask%60), 0xde, 0xad, 0xbe)
+								var app []byte
+								c.Guard("AppendEncodeUnixFSData", func() { app = data.AppendEncodeUnixFSData(prefix, d) })
+								if len(app) < 3 || !bytes.Equal(app[:3], []byte{0xde, 0xad, 0xbe}) || !bytes.Equal(app[3:], enc) {
+									c.Violation("C09|append-encode", "AppendEncodeUnixFSData(prefix, msg) = %x, want prefix dead be + %x", app, enc)
+								}
+								if again := data.EncodeUnixFSData(d); !bytes.Equal(again, enc) {
+									c.Violation("C09|encode-unstable", "encoding the same node twice gives %x then %x", enc, again)
+								}
+							}
 							var g2 pb.Data
 							c.Count("encodes_compared", 1)
 							if err := proto.Unmarshal(enc, &g2); err != nil {
@@ -379,6 +391,9 @@ func TestC09(t *testing.T) {
 						c.Violation("C09|time-differs", "timestamp %x: library (%d, nanos present %v) vs reference (%d, %v)", raw, d.FieldSeconds().Int(), d.FieldFractionalNanoseconds().Exists(), g.GetSeconds(), g.Nanos)
 					}
 					enc := data.AppendEncodeUnixTime(nil, d)
+					if app := data.AppendEncodeUnixTime(append(make([]byte, 0, 3+len(raw)%9), 0x7f), d); len(app) < 1 || app[0] != 0x7f || !bytes.Equal(app[1:], enc) {
+						c.Violation("C09|append-encode", "AppendEncodeUnixTime(prefix, t) = %x, want 7f + %x", app, enc)
+					}
 					canon, _ := proto.Marshal(&pb.IPFSTimestamp{Seconds: &tm.Seconds, Nanos: tm.Nanos})
 					c.Count("canonical_roundtrips", 1)
 					if !bytes.Equal(enc, canon) {
@@ -410,6 +425,9 @@ func TestC09(t *testing.T) {
 				}
 				if enc := data.EncodeUnixFSMetadata(d); !bytes.Equal(enc, canon) {
 					c.Violation("C09|metadata-encode", "metadata encodes to %x, reference %x", enc, canon)
+				}
+				if app := data.AppendEncodeUnixFSMetadata(append(make([]byte, 0, 40), 0x01, 0x02), d); len(app) < 2 || !bytes.Equal(app[:2], []byte{1, 2}) || !bytes.Equal(app[2:], canon) {
+					c.Violation("C09|append-encode", "AppendEncodeUnixFSMetadata(prefix, m) = %x, want 0102 + %x", app, canon)
 				}
 			}
 		}
